@@ -1,5 +1,8 @@
 import RxGen.Kernels
+import RxGen.Handlers
 import RxModel.PyVal
+import RxModel.Lemmas.HandlerSim
+import RxModel.Split
 /-!
 # C07 link theorem: the expiry predicate of the model (`tsExpired`) is the function generated from
 `time_split_mux._session_has_expired`, on integer timestamps and optional integer timeouts.
@@ -32,5 +35,78 @@ theorem Link_session_has_expired {α} (c : TsCfg α) (start last new : Int) :
     cases h : decide (start + a ≤ new) <;> cases h2 : decide (last + b ≤ new) <;>
       simp [int_beq_none, ok_bind', h, h2] <;> rfl
 
+
+/-! ## the handler of `time_split_mux` -/
+open HM
+/-- the model's time_split state (one slot holding `(start, last)`) as the two slot arrays of the code's states -/
+def repTs (st : TsSt) : Nat → Nat → Slot Val := fun sid i =>
+  if sid = 0 then (st i).map (fun o => o.map (fun p => Val.int p.1))
+  else if sid = 1 then (st i).map (fun o => o.map (fun p => Val.int p.2))
+  else none
+
+theorem repTs_upd (st : TsSt) (i : Nat) (v : Option (Option (Int × Int))) :
+    repTs (upd st i v) = updSlot (updSlot (repTs st) 0 i (v.map (fun o => o.map (fun p => Val.int p.1)))) 1 i
+      (v.map (fun o => o.map (fun p => Val.int p.2))) := by
+  funext sid j
+  by_cases h1 : sid = 0 <;> by_cases h2 : sid = 1 <;> by_cases h3 : j = i <;> simp [repTs, updSlot, upd, h1, h2, h3]
+  all_goals omega
+
+/-- closes goals that equate two stacks of slot updates at the same index of states 0 and 1 -/
+macro "upd_ext" "[" ts:Lean.Parser.Tactic.simpLemma,* "]" k:term : tactic =>
+  `(tactic| (funext sid j; by_cases h1 : sid = 0 <;> by_cases h2 : sid = 1 <;> by_cases h3 : j = ($k).idx <;>
+      simp [updSlot, h1, h2, h3, $ts,*]))
+
+theorem truthy_boolV (b : Bool) : PyAlg.truthy (Val.bool b) = b := rfl
+theorem isTrue_boolV (b : Bool) : PyAlg.isTrue (Val.bool b) = b := by cases b <;> rfl
+
+/-- the configuration of the model's time_split as the arguments the code's `time_split_mux` is created with -/
+def tsTime {α} (c : TsCfg α) : α → Except Err Val := fun v => .ok (.int (c.time v))
+def tsClosing {α} (c : TsCfg α) : Option (α → Except Err Val) := c.closing.map (fun f v => .ok (.bool (f v)))
+
+/-- `time_split_mux`: the generated handler (two states: window reference timestamp, last timestamp) is the model's `tsStep`,
+for every configuration (timeouts present or `None`, closing mapper or none, include flag), on every event whose key has a live slot -/
+theorem LinkH_time_split (c : TsCfg Val) (st : TsSt) (ev : Ev Val)
+    (hlive : ∀ k, ((∃ v, ev = .next k v) ∨ ev = .done k ∨ (∃ e, ev = .err k e)) → st k.idx ≠ none) :
+    runH2 (Gen.time_split_mux_on_next (tsTime c) (tsClosing c) c.incl (optInt c.active) (optInt c.inactive) ev) (repTs st)
+      = (.ok (), repTs (tsStep c st ev).1, (tsStep c st ev).2.1, (tsStep c st ev).2.2.map OEv.toEv) := by
+  cases ev with
+  | create k => hm_simp [runH2, emitOuter, Gen.time_split_mux_on_next, tsStep, repTs_upd, OEv.toEv]
+  | next k v =>
+    cases h : st k.idx with
+    | none => exact absurd h (hlive k (Or.inl ⟨v, rfl⟩))
+    | some cur =>
+      cases cur with
+      | none =>
+        have hx := Link_session_has_expired c (c.time v) (c.time v) (c.time v)
+        cases hexp : tsExpired c (c.time v) (c.time v) (c.time v) <;> cases hcl : c.closing with
+        | none => cases hi : c.incl <;>
+            hm_simp [runH2, emitOuter, Gen.time_split_mux_on_next, tsStep, repTs_upd, h, repTs, ik, tsTime, tsClosing, hcl, hi,
+              hx, hexp, truthy_boolV, TsCfg.closes, updSlot_same, updSlot_updSlot] <;> try (upd_ext [repTs, h] k)
+        | some f => cases hf : f v <;> cases hi : c.incl <;>
+            hm_simp [runH2, emitOuter, Gen.time_split_mux_on_next, tsStep, repTs_upd, h, repTs, ik, tsTime, tsClosing, hcl, hi,
+              hx, hexp, truthy_boolV, isTrue_boolV, TsCfg.closes, hf, updSlot_same, updSlot_updSlot] <;> try (upd_ext [repTs, h] k)
+      | some sl =>
+        obtain ⟨s0, l0⟩ := sl
+        have hx := Link_session_has_expired c s0 l0 (c.time v)
+        cases hexp : tsExpired c s0 l0 (c.time v) <;> cases hcl : c.closing with
+        | none => cases hi : c.incl <;>
+            hm_simp [runH2, emitOuter, Gen.time_split_mux_on_next, tsStep, repTs_upd, h, repTs, ik, tsTime, tsClosing, hcl, hi,
+              hx, hexp, truthy_boolV, TsCfg.closes, updSlot_same, updSlot_updSlot] <;> try (upd_ext [repTs, h] k)
+        | some f => cases hf : f v <;> cases hi : c.incl <;>
+            hm_simp [runH2, emitOuter, Gen.time_split_mux_on_next, tsStep, repTs_upd, h, repTs, ik, tsTime, tsClosing, hcl, hi,
+              hx, hexp, truthy_boolV, isTrue_boolV, TsCfg.closes, hf, updSlot_same, updSlot_updSlot] <;> try (upd_ext [repTs, h] k)
+  | done k =>
+    cases h : st k.idx with
+    | none => exact absurd h (hlive k (Or.inr (Or.inl rfl)))
+    | some cur =>
+      cases cur <;>
+        hm_simp [runH2, emitOuter, Gen.time_split_mux_on_next, tsStep, repTs_upd, h, repTs, ik, OEv.toEv, updSlot_same, updSlot_updSlot]
+  | err k e =>
+    cases h : st k.idx with
+    | none => exact absurd h (hlive k (Or.inr (Or.inr ⟨e, rfl⟩)))
+    | some cur =>
+      cases cur <;>
+        hm_simp [runH2, emitOuter, Gen.time_split_mux_on_next, tsStep, repTs_upd, h, repTs, ik, OEv.toEv, updSlot_same, updSlot_updSlot]
+  | fatal e => hm_simp [runH2, emitOuter, Gen.time_split_mux_on_next, tsStep]
 
 end Rx
